@@ -401,6 +401,7 @@ fn main() {
 		"newer" => cmd_newer(&a),
 		"fuzz" => robust::cmd_fuzz(&a),
 		"deep-meta" => robust::cmd_deep_meta(&a),
+		"meta-fuzz" => robust::cmd_meta_fuzz(&a),
 		"probe-read" => robust::cmd_probe_read(&a),
 		"sched" => streamchk::cmd_sched(&a),
 		"cuts" => streamchk::cmd_cuts(&a),
